@@ -1185,8 +1185,12 @@ func (rw *rewriter) fieldOf(e ast.Expr) (*types.Named, *ast.SelectorExpr, bool) 
 		return nil, nil, false
 	}
 	switch sl.Obj().Type().Underlying().(type) {
-	case *types.Map, *types.Slice:
+	case *types.Map:
 		return nil, nil, false // rule R8's business
+	case *types.Slice:
+		if tableTypes[n.Obj().Name()] {
+			return nil, nil, false // rule R8's business
+		}
 	}
 	if named, ok := types.Unalias(sl.Obj().Type()).(*types.Named); ok && named.Obj().Pkg() != nil &&
 		(named.Obj().Pkg().Path() == "sync" || named.Obj().Pkg().Path() == "sync/atomic") {
@@ -1450,6 +1454,9 @@ func (rw *rewriter) withMapProbes(list []ast.Stmt, quiet bool, fn string) []ast.
 				}
 			} else if rw.sharedSliceExpr(ts.X, s) {
 				out = append(out, rw.varProbe("VarR", ts.X, s, fn))
+			}
+			if rw.fieldProbes {
+				hdr = append(hdr, ts.X)
 			}
 		}
 		for _, m := range rw.mapReads(s, hdr, skip) {
